@@ -30,7 +30,10 @@ def group_runs(g, tier):
             W('phys', 'edges', frac=0.04 if q else 1.0, ops='copy_file,move_file,copy_dir,move_dir'), W('phys', 'edges', lts='deep', frac=0.04 if q else 1.0, names='prefix2', ops='copy_file,move_file,copy_dir,move_dir'),
             W('mem', 'edges', lts='chain', frac=0.25 if q else 1.0), W('phys', 'edges', lts='chain', frac=0.1 if q else 1.0, names='dotted'),
             W('mem', 'edges', lts='wide', frac=0.03 if q else 1.0, names='prefix2'), W('phys', 'random', lts='wide', walks=6 if q else 300, length=40, names='multi'),
-            W('mem', 'random', names='prefix2', walks=12 if q else 400, length=40), W('mem', 'random', names='nearwo', walks=6 if q else 200, length=40), W('mem', 'random', lts='deep', names='prefix2', walks=8 if q else 300, length=40),
+            W('mem', 'random', names='prefix2', walks=12 if q else 400, length=40), W('mem', 'random', names='nearwo', walks=6 if q else 200, length=40),
+            # files larger than 64 KiB and not a multiple of it (two symbols of 40 000 bytes): chunked copy loops
+            W('mem', 'random', b=40000, walks=6 if q else 100, length=30, ops='create_file,append_file,copy_file,move_file,remove_file,create_dir'),
+            W('phys', 'random', b=40000, walks=4 if q else 60, length=30, ops='create_file,append_file,copy_file,move_file,remove_file,create_dir'), W('mem', 'random', lts='deep', names='prefix2', walks=8 if q else 300, length=40),
             W('mem', 'random', names='dotted', walks=20 if q else 500, length=40),
             W('mem', 'random', names='multi', b=3, walks=20 if q else 500, length=40),
             W('mem', 'random', names='long', b=4096, walks=6 if q else 100, length=30),
@@ -83,6 +86,7 @@ def group_runs(g, tier):
             W('ovl(mem,mem)', 'edges', lts='wide', frac=0.02 if q else 1.0, split=True), W('ovl(mem,phys)', 'random', lts='wide', walks=5 if q else 200, length=40, split=True),
             W('ovl(mem,mem)', 'random', lts='chain', walks=10 if q else 400, length=40, split=True, lower_only=True),
             W('ovl(mem,mem)', 'random', names='prefix2', walks=8 if q else 300, length=40, split=True),
+            W('ovl(mem,mem)', 'random', b=40000, walks=6 if q else 100, length=30, split=True, lower_only=True, ops='create_file,append_file,copy_file,move_file,set_time,create_dir'),
             W('ovl(mem,mem)', 'random', names='nearwo', walks=10 if q else 300, length=40, split=True), W('ovl(mem,mem,mem)', 'edges', names='nearwo', frac=0.01 if q else 0.3, split=True),
             W('ovl(phys,mem)', 'random', names='nearwo', lts='deep', walks=5 if q else 200, length=40, split=True),
             W('ovl(mem,mem)', 'random', names='rnd', walks=8 if q else 300, length=40, split=True), W('ovl(phys,mem)', 'random', names='rnd', walks=5 if q else 200, length=40, split=True),
@@ -179,7 +183,7 @@ def group_runs(g, tier):
         cfgs = [('async:fault(mem)', 30), ('async:ovl(fault(mem),mem)', 25), ('async:ovl(mem,fault(mem))', 25), ('async:alt(zr,fault(mem))', 25), ('async:alt(zr,ovl(fault(mem),mem))', 15)]
         return [dict(kind='faults', cfg=c, pairs=n * k, split=False, names=['ascii', 'prefix', 'dotted'][i % 3], lts='small' if i % 2 == 0 else 'deep', tspec='Trace_Tree') for i, (c, n) in enumerate(cfgs)]
     if g == 'emb':
-        return [dict(kind='emb', tspec='Trace_Tree')] + [dict(kind='embdyn', names=nm, tspec='Trace_Tree') for nm in (('ascii', 'prefix2') if q else ('ascii', 'prefix', 'prefix2', 'dotted', 'multi', 'rnd'))]
+        return [dict(kind='emb', tspec='Trace_Tree')] + [dict(kind='embdyn', names=nm, tspec='Trace_Tree') for nm in (('ascii', 'prefix2', 'multi') if q else ('ascii', 'prefix', 'prefix2', 'dotted', 'multi', 'rnd'))]
     if g == 'faults':
         k = 2 if q else 20
         cfgs = [('fault(mem)', 60, False), ('alt(zr,fault(mem))', 40, False), ('ovl(fault(mem),mem)', 40, True), ('ovl(mem,fault(mem))', 60, True),
